@@ -766,6 +766,7 @@ func lex(s string) ([]tok, error) {
 type parser struct {
 	toks []tok
 	p    int
+	noIn bool // inside `let x := <here> in ...` the word `in` ends the value, it is not the membership operator
 }
 
 func parseExpr(s string) (Expr, error) {
@@ -912,7 +913,10 @@ func (p *parser) expr() (Expr, error) {
 		if err := p.expect(":="); err != nil {
 			return nil, err
 		}
+		saved := p.noIn
+		p.noIn = true
 		v, err := p.ternary()
+		p.noIn = saved
 		if err != nil {
 			return nil, err
 		}
@@ -1048,7 +1052,7 @@ func (p *parser) cmp() (Expr, error) {
 			x = EBin{t.s, x, y}
 			continue
 		}
-		if t.k == "id" && t.s == "in" {
+		if t.k == "id" && t.s == "in" && !p.noIn {
 			p.next()
 			y, err := p.add()
 			if err != nil {
